@@ -256,6 +256,8 @@ class CallMixin:
             if c is None:
                 raise OutsideSubset('hasattr')
             return self.apply_contract(st, c, args, kw, node)
+        if name == 'iter' and len(args) == 1:
+            return [(st, args[0])]
         if name in ('list', 'tuple'):
             if not args:
                 return [(st, SV(TSeq(TBottom), None))]
@@ -465,7 +467,11 @@ class CallMixin:
         if isinstance(ty, TMap):
             return self.map_method(st, recv, name, args, node)
         if isinstance(ty, TUnion):
-            raise OutsideSubset('method %s on union %s' % (name, ty))
+            nb = self.narrow_union(st, recv, node, 'method ' + name,
+                                   lambda t: (isinstance(t, TRef) and self.has_attr(t.cls, name)) or
+                                   (t == TStr and name in ('lower', 'strip', 'split')) or
+                                   (isinstance(t, TMap) and name in ('get', 'keys', 'items', 'values', 'copy')))
+            return self.call_method(st, nb, name, args, kw, node)
         if isinstance(ty, TRef):
             cls = static_cls or ty.cls
             if cls.startswith('rxmatch:'):
@@ -675,8 +681,22 @@ class CallMixin:
             raise OutsideSubset('%s on a temporary container' % op)
         if isinstance(cont.ty, TUnion):
             want_map = op in ('update', 'setdefault') or (op == 'pop' and False)
-            pl, cont = self.pick_alt(st, pl, cont, node,
-                                     (lambda t: isinstance(t, TMap)) if want_map else (lambda t: isinstance(t, TSeq)))
+            if want_map:
+                pred = lambda t: isinstance(t, TMap)
+            elif op == 'append' and args:
+                def pred(t, a=args[0]):
+                    if not isinstance(t, TSeq):
+                        return False
+                    if isinstance(t.elem, TOpaque) and not isinstance(a.ty, TOpaque):
+                        return False      # not through the any-value injection
+                    try:
+                        coerce(a, t.elem, self.classes)
+                        return True
+                    except TypeMismatch:
+                        return False
+            else:
+                pred = lambda t: isinstance(t, TSeq)
+            pl, cont = self.pick_alt(st, pl, cont, node, pred)
         if isinstance(cont.ty, TSeq):
             return self.mutate_seq(st, pl, cont, op, args, node)
         if isinstance(cont.ty, TMap):
@@ -746,6 +766,8 @@ class CallMixin:
             src = args[0]
             if isinstance(src.ty, TRef) and src.ty.cls.startswith('dict:'):
                 src = self.read_field(st, src, src.ty.cls, 'items')
+            if isinstance(src.ty, TUnion):
+                src = self.narrow_union(st, src, node, 'update source', lambda t: isinstance(t, TMap))
             if isinstance(src.ty, TMap) and src.ty.k is TBottom:
                 return [(st, NONE)]
             if not isinstance(src.ty, TMap):
